@@ -431,8 +431,9 @@ def pathOK (es : List Event) : Bool :=
 def exitsOK (exempt : List String) : List Event → Abs → Bool
   | [], _ => true
   | .mayRaise site :: es, a =>
-    (exempt.contains site || a.cleanD) &&
-    (exempt.contains site || exempt.contains ("rep:" ++ site) || !a.rAnti) && exitsOK exempt es a
+    -- the cheap Boolean tests first: the strings are only compared at a dirty exit (kernel evaluation is lazy)
+    (a.cleanD || exempt.contains site) &&
+    (!a.rAnti || exempt.contains site || exempt.contains ("rep:" ++ site)) && exitsOK exempt es a
   | e :: es, a => exitsOK exempt es (absEvent e a)
 
 def pathExitsOK (exempt : List String) (es : List Event) : Bool :=
@@ -509,7 +510,7 @@ def absSeg (s : Seg) (a : Abs) : Abs :=
     | [es] => absPath es a
     | _ => Abs.top
   | true =>
-    let x := absIter 16 s.alts a
+    let x := absIter 4 s.alts a
     match s.alts.all fun es => (absPath es x).le x with
     | true => x
     | false => Abs.top
